@@ -365,3 +365,52 @@ Proof.
   rewrite HR. reflexivity.
 Qed.
 End Finite.
+
+(* ---------------- refreshment of one component from its conditional law preserves pi ---------------- *)
+(* states = positions x momenta; R((x,m),(x',m')) = [x = x'] pi(x',m') / sum_m'' pi(x',m''): the momentum is redrawn from
+   its conditional law given the position (for pi = e^logd(x) e^-K(m) that is the law of the momentum, whatever x) *)
+Lemma ssum_app {T} (g : T -> Q) l1 l2 : ssum g (l1 ++ l2) == ssum g l1 + ssum g l2.
+Proof. induction l1 as [|a l1 IH]; [change (ssum g l2 == 0 + ssum g l2); ring | cbn [app]; rewrite !ssum_cons, IH; ring]. Qed.
+
+Lemma ssum_map {T T'} (g : T' -> Q) (h : T -> T') l : ssum g (map h l) == ssum (fun a => g (h a)) l.
+Proof. induction l as [|a l IH]; [reflexivity | cbn [map]; rewrite !ssum_cons, IH; reflexivity]. Qed.
+
+Lemma ssum_list_prod {X M} (g : X * M -> Q) (xs : list X) (ms : list M) :
+  ssum g (list_prod xs ms) == ssum (fun x => ssum (fun m => g (x, m)) ms) xs.
+Proof.
+  induction xs as [|x xs IH]; [reflexivity|]. cbn [list_prod]. rewrite ssum_app, ssum_cons, IH, ssum_map. reflexivity.
+Qed.
+
+Section Refresh.
+Variables X M : Type.
+Variable eqbX : X -> X -> bool.
+Hypothesis eqbX_spec : forall a b, eqbX a b = true <-> a = b.
+Variable xs : list X.
+Variable ms : list M.
+Hypothesis xs_nd : NoDup xs.
+Variable pi : X * M -> Q.
+
+Definition Zx (x : X) : Q := ssum (fun m => pi (x, m)) ms.
+Definition gibbs (s s' : X * M) : Q := (if eqbX (fst s) (fst s') then 1 else 0) * pi s' / Zx (fst s').
+
+Lemma X_eq_dec : forall a b : X, {a = b} + {a <> b}.
+Proof.
+  intros a b. destruct (eqbX a b) eqn:E; [left; apply eqbX_spec, E | right].
+  intros ->. assert (eqbX b b = true) by (apply eqbX_spec; reflexivity). congruence.
+Qed.
+
+Theorem gibbs_preserves (s' : X * M) : In (fst s') xs -> ~ Zx (fst s') == 0 ->
+  ssum (fun s => pi s * gibbs s s') (list_prod xs ms) == pi s'.
+Proof.
+  destruct s' as [x' m']. cbn [fst]. intros Hin Hz. rewrite ssum_list_prod. unfold gibbs. cbn [fst].
+  rewrite (ssum_sub X X_eq_dec _ [x'] xs xs_nd).
+  - rewrite ssum_cons. assert (E : eqbX x' x' = true) by (apply eqbX_spec; reflexivity). rewrite E.
+    rewrite (ssum_ext _ (fun m => (pi (x', m') / Zx x') * pi (x', m))) by (intros; unfold Qdiv; ring).
+    rewrite ssum_scale. fold (Zx x'). cbn [ssum fold_right]. field. exact Hz.
+  - constructor; [intros [] | constructor].
+  - intros y [<- | []]. exact Hin.
+  - intros y _ Hy. apply ssum_zero. intros m _. destruct (eqbX y x') eqn:E.
+    + apply eqbX_spec in E. exfalso. apply Hy. left. symmetry. exact E.
+    + unfold Qdiv. ring.
+Qed.
+End Refresh.
